@@ -202,8 +202,7 @@ def main(args):
         meta = json.load(open(os.path.join(d, "meta.json")))
 
         def apply_fn(repo, d=d):
-            subprocess.run(["git", "apply", "--unsafe-paths", "--directory=" + repo,
-                            os.path.join(d, "patch.diff")], check=True, cwd="/")
+            subprocess.run(["git", "apply", os.path.join(d, "patch.diff")], check=True, cwd=repo)
         todo.append((mid, meta["property"], apply_fn, meta.get("what", "")))
     for mid, prop, fn, what in todo:
         try:
